@@ -362,6 +362,14 @@ def shapes(tier, seed):
     for op in ('==', '>=', '<=', '>', '<'):
         S.append(RequireCatalogue(f'require-catalogue:{op}', op=op))
     S += numeric_family(good_isa)
+    # the language name of #require is the declared name itself (whole pipeline: the model builds the name)
+    for nm, declared, required, ok in (('dotted', 'acme.cpu', 'acme.cpu', True), ('dotted-vs-underscore', 'acme.cpu', 'acme_cpu', False),
+                                       ('hyphen', 'acme-cpu', 'acme-cpu', True), ('hyphen-vs-underscore', 'acme-cpu', 'acme_cpu', False),
+                                       ('digits', 'cpu6502', 'cpu6502', True), ('other-name', 'acme', 'acm', False)):
+        c = good_isa()
+        c['general']['identifier'] = {'name': declared, 'version': '1.2.0'}
+        S.append(ConfigShape(f'require-name:{nm}', config=c, source=f'#require "{required} >= 1.0.0"\nnop\n',
+                             accept='true' if ok else 'false', expect=['ok'] if ok else ['rejected']))
     # (d) corruption catalogue -------------------------------------------------------------------------------------
     S.append(CorruptionShape('wellformed:baseline', config=good_isa(), files={'main.asm': 'mov ra, 5\nbset 3\nmov2 rb, 1\n'},
                              expect=['ok']))
